@@ -21,17 +21,20 @@ out = []
 out.append("### 9.6 Validation of the machinery: seeded changes, reverted fixes, determinism\n")
 out.append("`./selftest seeded` applies every change under `/verif/seeded/<id>/<variant>/patch.diff` to a scratch worktree of")
 out.append("`/repo` (never to `/repo` itself) and runs the quick tier of the checks with `VERIF_REPO=<worktree>`.")
-out.append("The 72 changes were written in two rounds by independent sub-agents that saw only the text of one property (round 2")
-out.append("also a one-paragraph summary of the two round-1 changes to avoid) and a scratch worktree - nothing from `/verif`.")
+out.append(f"The {len(res)} changes were written in three rounds by independent sub-agents that saw only the text of one property (rounds 2 and 3")
+out.append("also one-paragraph summaries of the earlier changes to avoid) and a scratch worktree - nothing from `/verif`.")
 out.append("Each was confirmed by the builder before being kept: the patch applies, the repository's whole suite (51 tests + 6")
 out.append("doc-tests) passes with it, its demonstration fails with it and passes without it (`meta.json` records the commands).")
 out.append("C18/a was re-applied by hand after the D9 fix rewrote the same lines (both patches are kept).\n")
 n_target = sum(1 for l in res if (res[l].get(l.split('/')[0]) or {}).get('rc') == 1)
 out.append(f"Result: **{n_target} of {len(res)}** seeded changes are reported (exit 1, VIOLATION line, replay reproduces) by the quick tier of")
 out.append("their *target* property's check; the last column lists the other properties' checks that also report them.")
-out.append("Changes first missed and what was strengthened because of them: C14/a (sibling tags 0/128 added to the C14")
-out.append("alphabet), C09/d (JSON forms of Evaluation/Point added to the C09 entry points), C13/c (calibrated forged-proof")
-out.append("synthesis, then a wider calibration family); the reverted D7 fix first produced a harness panic instead of a")
+out.append("Changes first missed by their target check and what was strengthened because of them: C14/a (sibling tags 0/128")
+out.append("added to the C14 alphabet), C09/d (JSON forms of Evaluation/Point added to the C09 entry points), C13/c (calibrated")
+out.append("forged-proof synthesis, then a wider calibration family), C13/e (an honest verification interleaved with every")
+out.append("tampered one: a per-thread memo keyed on too little), C10/f (keys created on one thread and used on another); the")
+out.append("descriptions of further round-2/3 changes were used to add the sweeps and histories of section 9.5 before those")
+out.append("changes were run. The reverted D7 fix first produced a harness panic instead of a")
 out.append("violation (ff's `sqrt_ratio` trips a debug assertion under the wrong generator) - calls into the code under test")
 out.append("are now guarded there and harness errors no longer mask violations found elsewhere.\n")
 out.append("| change | what it does | needs, to manifest | caught by target check (first key) | also caught by |")
